@@ -55,7 +55,29 @@ func VerifC05dReference(t, op, where int) {
 }
 
 func VerifC05aAlgebra(t, op, where, wiring int) {
+	c05Format = 0
 	c05Run(t, op, where, wiring, false)
+}
+
+// c05Format: 0 generickv, 1 csv (header "g,x,y", rows may be short), 2 the
+// default DTail format (INFO|time|...|MAPREDUCE:T|k=v|...).
+var c05Format int
+var c05Formats = []string{"generickv", "csv", "default"}
+
+const c05CSVHeader = "g,x,y"
+const c05DefaultPrefix = "INFO|20211002-071209|1|caller.go:1|8|12|0|1.0|1h|MAPREDUCE:T|"
+
+// VerifC05eFormats: the algebra of C05a (and, with wiring 3, the reference of
+// C05d) for the csv and default log formats. csv: every file starts with the
+// header line; wiring 0 = two servers with one file each, 1 = one file in two
+// serialisation intervals, 2 = two files in one server session.
+func VerifC05eFormats(t, op, format, wiring int) {
+	c05Format = format
+	if wiring == 3 {
+		c05Run(t, op, 0, 0, true)
+		return
+	}
+	c05Run(t, op, 0, wiring, false)
 }
 
 func c05Run(t, op, where, wiring int, refOnly bool) {
@@ -71,9 +93,9 @@ func c05Run(t, op, where, wiring int, refOnly bool) {
 		queryStr += "where x > 3 "
 	}
 	if twoKeys {
-		queryStr += "group by g,h logformat generickv"
+		queryStr += "group by g,h logformat " + c05Formats[c05Format]
 	} else {
-		queryStr += "group by g logformat generickv"
+		queryStr += "group by g logformat " + c05Formats[c05Format]
 	}
 	q, err := mapr.NewQuery(queryStr)
 	verifrt.Assert(err == nil, "query rejected")
@@ -111,17 +133,48 @@ func c05Run(t, op, where, wiring int, refOnly bool) {
 				l.text = "z=0"
 			}
 		}
-		if l.hasX {
-			l.text += "|x=" + string([]byte{l.x})
-		}
-		if l.hasY {
-			l.text += "|y=" + string([]byte{l.y})
+		switch c05Format {
+		case 1:
+			// a csv row: g[,x[,y]] (a short row lacks the trailing columns)
+			l.hasY = l.hasY && l.hasX
+			l.text = string([]byte{l.g})
+			if l.hasX {
+				l.text += "," + string([]byte{l.x})
+			}
+			if l.hasY {
+				l.text += "," + string([]byte{l.y})
+			}
+		default:
+			if l.hasX {
+				l.text += "|x=" + string([]byte{l.x})
+			}
+			if l.hasY {
+				l.text += "|y=" + string([]byte{l.y})
+			}
+			if c05Format == 2 {
+				l.text = c05DefaultPrefix + l.text
+			}
 		}
 		all = append(all, l.text)
 		if l.part {
 			p1 = append(p1, l.text)
 		} else {
 			p0 = append(p0, l.text)
+		}
+	}
+	twoFiles := false
+	if c05Format == 1 {
+		// every csv file starts with its header line
+		all = append([]string{c05CSVHeader}, all...)
+		p0 = append([]string{c05CSVHeader}, p0...)
+		if wiring == 0 || wiring == 2 {
+			p1 = append([]string{c05CSVHeader}, p1...)
+		}
+		if wiring == 2 {
+			// two files read one after the other in one server session, one final serialisation
+			twoFiles = true
+			p0 = append(p0, p1...)
+			p1 = nil
 		}
 	}
 	central := evaluate(q, queryStr, [][][]string{{all}})
@@ -163,6 +216,15 @@ func c05Run(t, op, where, wiring int, refOnly bool) {
 		dist = evaluate(q, queryStr, [][][]string{{p0, p1}})
 	}
 
+	if twoFiles {
+		// known: the csv parser of a session takes the first line it ever sees for the header;
+		// the header line of every further file is aggregated as a data row (group "g", x = "x")
+		if hs, ok := dist["g"]; ok && len(dist) == len(central)+1 {
+			verifrt.Finding("C05-KF2", hs.Samples == 1)
+			delete(dist, "g")
+			verifrt.Reach("second-header")
+		}
+	}
 	verifrt.Assert(len(dist) == len(central), "distributed result has different groups than the central evaluation")
 	for key, cs := range central {
 		ds, ok := dist[key]
